@@ -111,7 +111,9 @@ def parse_sim_file(path):
   """a file written by `tlc -simulate file=...`: list of (action_name, state dict)"""
   txt = open(path).read()
   res = []
-  for m in re.finditer(r'\\\* <?([A-Za-z_0-9 ]+?)(?: line[^>]*)?>?\s*\nSTATE_\d+ ==\s*\n(.*?)(?=\n\n|\Z)', txt, re.S):
+  for m in re.finditer(r'\\\* <([A-Za-z_0-9]+)(\([^)]*\))?[^\n]*\nSTATE_\d+ ==\s*\n(.*?)(?=\n\n|\Z)', txt, re.S):
+    res.append((m.group(1).strip() + (m.group(2) or ''), parse_state(m.group(3))))
+    continue
     res.append((m.group(1).strip(), parse_state(m.group(2))))
   return res
 
